@@ -580,7 +580,7 @@ def real_check(lat, beam, ex, ops=OPS):
             continue
         d = realgen.beams_close(out, ref, rtol=RTOL, atol=ATOL)
         if d:
-            fails.append({"op": op, "what": "tracking result differs from the original segment's", "diffs": d})
+            fails.append({"op": op, "what": "tracking result differs from the original segment's", "diffs": d, "observables": deviating(out, ref)})
         elif type(out) is type(ref):
             sh = batch_shape_lost(out, ref)
             if sh:
@@ -688,6 +688,69 @@ def signature_active(text):
     return True
 
 
+def fold_maps(e, b):
+    """element-by-element reference of Segment.track: every skippable leaf through its own first-order transfer map (what a group
+    of skippable elements applies), every other leaf through its own track(), sub-segments recursively"""
+    import cheetah
+    if isinstance(e, cheetah.Segment):
+        for c in e.elements:
+            b = fold_maps(c, b)
+        return b
+    if e.is_skippable:
+        from cheetah.accelerator.element import Element
+        return Element.track(e, b)
+    return e.track(b)
+
+
+def deviating(out, ref, rtol=RTOL, atol=ATOL):
+    """WHICH observables differ: phase-space coordinates 0..5 (x, px, y, py, tau, p) of the particles / of mu, index pairs of cov,
+    and the names of the other tensors (energy, charges, survival)"""
+    import cheetah
+    res = {"coords": [], "cov": [], "other": []}
+    if type(out) is not type(ref):
+        return dict(res, other=["type"])
+
+    def bad(x, y):
+        x, y = torch.broadcast_tensors(x, y)
+        x, y = torch.nan_to_num(x, nan=1e300), torch.nan_to_num(y, nan=1e300)
+        return (x - y).abs() > atol + rtol * torch.maximum(x.abs(), y.abs())
+    try:
+        if isinstance(ref, cheetah.ParticleBeam):
+            m = bad(out.particles, ref.particles)
+            res["coords"] = [c for c in range(6) if bool(m[..., c].any())]
+            res["max_abs_diff_per_coord"] = [float((out.particles - ref.particles)[..., c].abs().max()) for c in range(6)]
+            names = ["energy", "particle_charges", "survival_probabilities"]
+        else:
+            m = bad(out._mu, ref._mu)
+            res["coords"] = [c for c in range(6) if bool(m[..., c].any())]
+            mc = bad(out._cov, ref._cov)
+            res["cov"] = [[i, j] for i in range(6) for j in range(i, 6) if bool(mc[..., i, j].any()) or bool(mc[..., j, i].any())]
+            names = ["energy", "total_charge"]
+        res["other"] = [n for n in names if bool(bad(getattr(out, n), getattr(ref, n)).any())]
+    except Exception as ex_:  # noqa -- shapes that do not broadcast
+        res["other"].append("shape:" + type(ex_).__name__)
+    return res
+
+
+def explained_by_replacement(lat, beam, ex, op):
+    """WHAT a listed F9/F10 finding is allowed to explain: the difference between the original and the transformed segment that comes
+    from the removed / replaced ELEMENTS.  Both segments must therefore track like their own element-by-element fold (fold_maps): a
+    deviation that comes from how Segment.track treats the (unchanged) elements is not the finding.  Returns None or a text."""
+    try:
+        seg = realgen.build(lat)
+        b = realgen.build_beam(beam)
+        new = apply_op(seg, op, b, ex)
+        d0 = realgen.beams_close(seg.track(b), fold_maps(seg, b), rtol=RTOL, atol=ATOL)
+        d1 = realgen.beams_close(new.track(b), fold_maps(new, b), rtol=RTOL, atol=ATOL)
+    except Exception as ex_:  # noqa
+        return f"element-by-element reference raised {type(ex_).__name__}: {ex_}"[:200]
+    if d0:
+        return f"the ORIGINAL segment does not track like its elements one after another: {d0}"
+    if d1:
+        return f"the transformed segment does not track like its own elements one after another: {d1}"
+    return None
+
+
 def classify_real(lat, beam, ex, fails):
     """Split failures into (known: list of texts, new: list of failures).  A tracking failure of the zero-length /
     as-drifts filters is known iff it disappears when exactly the top-level elements matching a listed signature are
@@ -711,8 +774,13 @@ def classify_real(lat, beam, ex, fails):
                     resp = resp or names
                     texts = sorted({sig[3] for s, sig in hits if s["name"] in resp})
                     stale = [t for t in texts if not signature_active(t)]
+                    unexplained = None if stale else explained_by_replacement(lat, beam, ex, op)
                     if stale:
                         new.append(dict(f, regression_of=stale, responsible=resp))
+                    elif unexplained:
+                        # the signature names WHERE (a listed class was removed / replaced); the deviation seen here is not the one the
+                        # finding characterises (original and result each equal to their own element-wise fold): a new failure
+                        new.append(dict(f, what=f["what"], not_the_listed_finding=unexplained, signature_hits=texts))
                     else:
                         known += texts
                     continue
@@ -957,6 +1025,115 @@ def vec_oracle(run, n):
     return new_fail
 
 
+# ---------------------------------------------------------------- a zero-strength element ALONE between non-mergeable neighbours
+LONE_CLASSES = ["Cavity", "Quadrupole", "Dipole", "RBend", "Solenoid", "HorizontalCorrector", "VerticalCorrector", "Undulator", "Marker", "Drift"]
+LONE_NEIGHBOURS = ["bpm", "screen", "cavity", "aperture", "edge"]
+
+
+def gen_lone_element(rng, cls, name):
+    """a skippable element of class `cls` at zero strength (cheetah tracking)"""
+    e = realgen.gen_element(rng, cls=cls, name=name, method="cheetah", length_pool=[0.25, 0.5, 1.0, 2.0])
+    kw = e["kw"]
+    if cls == "Cavity":
+        kw["voltage"] = 0.0
+        if kw["phase"] == 90.0:
+            kw["phase"] = 45.0
+    elif cls == "Quadrupole":
+        kw["k1"] = 0.0
+    elif cls in ("Dipole", "RBend"):
+        kw["angle"] = 0.0
+        if rng.random() < 0.8:
+            kw["k1"] = 0.0          # (angle 0, k1 != 0) is the listed finding F10: kept in, rarely
+    elif cls == "Solenoid":
+        kw["k"] = 0.0
+    elif cls in ("HorizontalCorrector", "VerticalCorrector"):
+        kw["angle"] = 0.0
+    elif cls == "Undulator":
+        kw["is_active"] = False
+    return e
+
+
+def gen_lone_case(rng, i):
+    """[run of live elements] N X N [X N ...] [run]: every X is a zero-strength skippable element whose temporary group in
+    Segment.track has exactly one member, every N cannot be merged (active BPM / Screen / Cavity / Aperture) or is the start / end of the
+    line; a few MeV, energy spread and bunch length of 1e-2 / 1e-3, so that second-order terms in tau are far above the tolerance"""
+    n_ctr = [0]
+
+    def nb(kind):
+        n_ctr[0] += 1
+        nm = f"n{n_ctr[0]}"
+        if kind == "bpm":
+            return {"cls": "BPM", "name": nm, "kw": {"is_active": True}}
+        if kind == "screen":
+            return {"cls": "Screen", "name": nm, "kw": {"resolution": [8, 8], "pixel_size": [1e-3, 1e-3], "binning": 1, "misalignment": [0.0, 0.0],
+                                                       "is_blocking": False, "is_active": True}}
+        if kind == "cavity":
+            return {"cls": "Cavity", "name": nm, "kw": {"length": rng.choice([0.5, 1.0]), "voltage": rng.choice([1e6, 2e6, 4e6]), "phase": rng.choice([0.0, 30.0, -20.0]),
+                                                       "frequency": 1.3e9}}
+        return {"cls": "Aperture", "name": nm, "kw": {"x_max": rng.choice([2e-3, 1.0, float("inf")]), "y_max": rng.choice([2e-3, 1.0, float("inf")]),
+                                                     "shape": rng.choice(["rectangular", "elliptical"]), "is_active": True}}
+
+    def live(nm):
+        if rng.random() < 0.5:
+            return {"cls": "Quadrupole", "name": nm, "kw": {"length": 0.2, "k1": rng.choice([2.0, -3.0, 0.5]), "tracking_method": "cheetah"}}
+        return {"cls": "Drift", "name": nm, "kw": {"length": rng.choice([0.3, 0.5]), "tracking_method": "cheetah"}}
+    n_lone = rng.choice([1, 1, 2, 3])
+    classes = [LONE_CLASSES[(i + j) % len(LONE_CLASSES)] if j == 0 else rng.choice(LONE_CLASSES) for j in range(n_lone)]
+    first = LONE_NEIGHBOURS[(i // len(LONE_CLASSES)) % len(LONE_NEIGHBOURS)] if rng.random() < 0.6 else rng.choice(LONE_NEIGHBOURS)
+    es = []
+    if first != "edge":
+        es += [live(f"a{k}") for k in range(rng.randrange(0, 3))] + [nb(first)]
+    lone = []
+    for j, cls in enumerate(classes):
+        es.append(gen_lone_element(rng, cls, f"x{j}"))
+        lone.append(f"x{j}")
+        last = j == len(classes) - 1
+        kind = rng.choice(LONE_NEIGHBOURS if last else LONE_NEIGHBOURS[:-1])
+        if kind != "edge":
+            es.append(nb(kind))
+            if last:
+                es += [live(f"z{k}") for k in range(rng.randrange(0, 3))]
+    bt = ["particle", "parameter"][(i // 2) % 2] if rng.random() < 0.7 else rng.choice(["particle", "parameter"])
+    energy = rng.choice([2e6, 4e6, 6e6, 1e7])
+    if bt == "particle":
+        beam = realgen.gen_particle_beam(rng, n=rng.choice([3, 5]), energy=energy, scale=1e-3, delta_scale=1e-2)
+        beam["survival"] = [1.0 if k == 0 else v for k, v in enumerate(beam["survival"])]
+    else:
+        beam = realgen.gen_parameter_beam(rng, energy=energy, scale=1e-3)
+        beam["mu"][5] *= 10.0                      # energy offset and spread of 1e-2
+        for k in range(6):
+            beam["cov"][5][k] *= 10.0
+            beam["cov"][k][5] *= 10.0
+    ex = [n for n in lone if rng.random() < 0.1]
+    if rng.random() < 0.15:
+        ex.append("absent")
+    return {"cls": "Segment", "name": "lone", "es": es}, beam, ex, classes, first
+
+
+def lone_oracle(run, n):
+    """the property oracle on real lattices in which every skippable class at zero strength sits alone between non-mergeable
+    neighbours, low energy, beam with energy spread, both beam types, all four optimisations, all six coordinates / moments"""
+    new_fail = []
+    for i in range(n):
+        lat, beam, ex, classes, first = gen_lone_case(run.rng, i)
+        st, fails = real_check(lat, beam, ex)
+        if st != "ok":
+            run.count("lone_" + st)
+            continue
+        run.add_case(["lone", lat, beam["type"], ex], True)
+        run.count("lone_" + beam["type"])
+        run.count("lone_first_neighbour_" + first)
+        for c in classes:
+            run.count("lone_" + c)
+        known, new = classify_real(lat, beam, ex, fails)
+        for k in known:
+            run.known(k)
+            run.count("lone_known_finding_hits")
+        for f in new:
+            new_fail.append({"kind": "real_lattice", "lattice": lat, "beam": beam, "except_for": ex, "failure": f})
+    return new_fail
+
+
 def zl_len(seg):
     try:
         return torch.as_tensor(seg.length).tolist()
@@ -1048,6 +1225,8 @@ def main(tier, replay=None):
     new_real = real_oracle(run, 1500 if thorough else 150)
     new_real += vec_oracle(run, 600 if thorough else 60)
     new_real += f28_real_oracle(run, 160 if thorough else 24)
+    # zero-strength skippable elements ALONE between non-mergeable neighbours at a few MeV (after the older stages, which keep their random stream)
+    new_real += lone_oracle(run, 600 if thorough else 60)
     regressed = replay_known(run)
     # failures already reported through the stored input of a fixed entry are not reported a second time
     new_real = [it for it in new_real if not (it["failure"].get("regression_of") and set(it["failure"]["regression_of"]) <= set(regressed))]
@@ -1061,7 +1240,13 @@ def main(tier, replay=None):
                               "identity of excepted objects and getattr(segment, name) addressability (Python object identity is outside the model)",
                               "vectorised settings: real lattices with a batch of 2-3 settings on one or two elements (cavity voltages, k1, k, angles, lengths "
                               "mixing exact zeros with non-zero values), entry-wise comparison, batch shape, no merge / drift replacement of an element "
-                              "that changes the energy in any batch entry (the Coq model is scalar)"]
+                              "that changes the energy in any batch entry (the Coq model is scalar)",
+                              "zero-strength skippable elements (Cavity V=0, Quadrupole k1=0, Dipole / RBend angle=0, Solenoid k=0, correctors angle 0, inactive "
+                              "Undulator, Marker, Drift) each ALONE between non-mergeable neighbours (active BPM / Screen / Cavity / Aperture, start / end of line) "
+                              "at 2-10 MeV with energy spread 1e-2: all six coordinates / moments of the original vs the four transformed segments (rtol 1e-9)",
+                              "a tracking difference is attributed to a listed F9/F10 signature only if the original and the transformed segment each track like "
+                              "their own elements one after another (skippable elements through their transfer maps): the finding explains the replaced element, "
+                              "nothing else"]
 
     # ---- verdict
     if impl_fail:
